@@ -168,7 +168,7 @@ func ReadReplay(path string) (*ReplayFile, error) {
 
 // Shrink minimises a failing tape while the same property/oracle/signature
 // class persists. Passes: truncate, delete chunks, zero chunks, lower values.
-func Shrink(t *testing.T, p *Prop, tier string, seed uint64, vals []uint32, want *Failure, param map[string]string) ([]uint32, int) {
+func Shrink(t *testing.T, p *Prop, tier string, seed uint64, vals []uint32, want *Failure, param map[string]string, isKnown func(*Failure) bool) ([]uint32, int) {
 	budget := p.MaxShrinkRuns
 	if budget == 0 {
 		budget = 400
@@ -180,7 +180,7 @@ func Shrink(t *testing.T, p *Prop, tier string, seed uint64, vals []uint32, want
 		}
 		for k := 0; k < 2; k++ { // twice in a row: a candidate that fails only sometimes is useless as a replay
 			runs++
-			o := Execute(t, p, tier, ReplayTape(seed, cand), nil, true, param)
+			o := Execute(t, p, tier, ReplayTape(seed, cand), isKnown, true, param)
 			if !(o.Failure != nil && o.Failure.Oracle == want.Oracle && o.Failure.Sig == want.Sig) {
 				return false
 			}
